@@ -105,6 +105,10 @@ impl<T: Plain> Hazard for Vec<T> {
         None
     }
 }
+/// a tuple struct with two members (written like a sequence)
+#[derive(Serialize, Deserialize, Debug, Clone, PartialEq)] pub struct Ts(u8, u8);
+impl Plain for Ts { fn plain(&self) -> Option<String> { None } }
+impl Hazard for Ts { fn hazard(&self) -> Option<&'static str> { Some("tuple-struct") } }
 impl<A: Plain, B: Plain> Plain for (A, B) { fn plain(&self) -> Option<String> { None } }
 impl<A: Plain, B: Plain> Hazard for (A, B) { fn hazard(&self) -> Option<&'static str> { Some("tuple") } }
 
@@ -291,6 +295,10 @@ fn values(ctx: &mut Ctx, tier: Tier, only: Option<(&str, usize)>) {
     shape!(ctx, tier, only, "{Option<String>,String}", { let mut d = vec![]; for a in opt(if q { &s2 } else { &s3 }) { for b in &s2 { d.push(F2 { a: a.clone(), b: b.clone() }); } } d });
     shape!(ctx, tier, only, "{bool,char,Option<u8>}", { let mut d = vec![]; for a in [false, true] { for b in CHARS { for c in opt(&ints!(u8)) { d.push(F3 { a, b, c }); } } } d });
     shape!(ctx, tier, only, "{String,Vec<String>,unit-enum}", { let mut d = vec![]; for a in &s1 { for b in seqs(&s1, 2) { for c in [E::A, E::Bb, E::Xy] { d.push(F3 { a: a.clone(), b: b.clone(), c }); } } } d });
+    // two sequence-like fields in one value (what one sequence leaves behind in the writer must not reach the next one)
+    shape!(ctx, tier, only, "{tuple-struct,Vec<String>}", { let mut d = vec![]; for a in [Ts(0, 0), Ts(1, 255)] { for b in seqs(&s1, 2) { d.push(F2 { a: a.clone(), b: b.clone() }); } } d });
+    shape!(ctx, tier, only, "{(i32,String),Vec<i32>}", { let mut d = vec![]; for a in [(1, "x".to_string()), (-1, String::new())] { for b in seqs(&ints!(i32), 2) { d.push(F2 { a: a.clone(), b: b.clone() }); } } d });
+    shape!(ctx, tier, only, "{Vec<String>,tuple-struct,Vec<i32>}", { let mut d = vec![]; for a in seqs(&s1, 2) { for c in seqs(&ints!(i32), 2) { d.push(F3 { a: a.clone(), b: Ts(7, 8), c: c.clone() }); } } d });
     shape!(ctx, tier, only, "{f64,Option<i32>,String}", { let mut d = vec![]; for a in f64s() { for b in opt(&ints!(i32)) { for c in &s1 { d.push(F3 { a, b, c: c.clone() }); } } } d });
     shape!(ctx, tier, only, "map<String,String>-of-0-or-1", {
         let mut d: Vec<BTreeMap<String, String>> = vec![BTreeMap::new()];
@@ -314,7 +322,7 @@ const KEYS: [&str; 4] = ["a", "b", "z", "%61"];
 // DESIGN's eight values plus one escape written with a lower-case hex digit (RFC 3986 2.1: both cases are equivalent)
 // ... and a value with a raw `=` (a base64 padding, a nested URL): the parts are `&`/`=`-separated, the value is what follows
 // the first `=` of its part
-const VALUES: [&str; 10] = ["", "a", "%41", "%4", "%zz", "+", "%E3%81%82", "a%26b", "%4a", "YQ=="];
+const VALUES: [&str; 11] = ["", "a", "%41", "%4", "%zz", "+", "%E3%81%82", "a%26b", "%4a", "YQ==", "caf%E9%20x"];
 
 pub enum Expect<T> { Value(T), Err(&'static str), /// the pairs are well-defined but one does not denote a value of its field's type
     Refuse(&'static str), Ambiguous(&'static str) }
@@ -527,6 +535,19 @@ fn check_text(ctx: &mut Ctx, text: &[u8], only_target: Option<&str>, only_route:
         let feature = text_feature(&raw, &[]);
         match (&decoded, &conn) {
             (_, None) => ctx.ambiguous("request-line-not-accepted"),
+            // Well-formed escapes whose bytes are not UTF-8: the iterator yields text, so it cannot hand out the bytes - but every
+            // escape is still to be decoded.  Admitted: the lossy text of the decoded bytes (U+FFFD for what is not UTF-8), or leaving
+            // such a pair out; not admitted: handing out the part un-decoded (its valid escapes `%20` included).
+            (Err(refenc::Undefined::NotUtf8), Some(conn)) => {
+                let lossy: Option<Vec<(String, String)>> = raw.iter().map(|(k, v)| Some((String::from_utf8_lossy(&refenc::pct_decode(k).ok()?).into_owned(), String::from_utf8_lossy(&refenc::pct_decode(v.as_ref()?).ok()?).into_owned()))).collect();
+                match (lossy, guarded(|| conn.request().query.iter().map(|(k, v)| (k.into_owned(), v.into_owned())).collect::<Vec<_>>())) {
+                    (None, _) => ctx.ambiguous("malformed-escape"),
+                    (_, Err(pn)) => ctx.violation(&format!("C09/query-iter/iter/panic:{}/escape-not-utf8", slug(&pn)), true, || json!({"part": "text", "route": "query-iter", "target": "iter", "text": esc(text), "observed": pn})),
+                    (Some(l), Ok(got)) if got == l => ctx.pass("query-iter:pairs:escape-not-utf8(lossy)", true, true),
+                    (Some(l), Ok(got)) if got.iter().all(|p| l.contains(p)) && got.len() < l.len() => ctx.ambiguous("escape-not-utf8:pair-left-out"),
+                    (Some(l), Ok(got)) => ctx.violation("C09/query-iter/iter/wrong-value/escape-not-utf8", true, || json!({"part": "text", "route": "query-iter", "target": "iter", "text": esc(text), "expected": dbg(&l), "observed": dbg(&got), "feature": "escape-not-utf8"})),
+                }
+            }
             (Err(_), _) => ctx.ambiguous("malformed-escape"),
             (Ok(p), Some(conn)) => match guarded(|| conn.request().query.iter().map(|(k, v)| (k.into_owned(), v.into_owned())).collect::<Vec<_>>()) {
                 Err(pn) => ctx.violation(&format!("C09/query-iter/iter/panic:{}/{feature}", slug(&pn)), true, || json!({"part": "text", "route": "query-iter", "target": "iter", "text": esc(text), "observed": pn})),
